@@ -9,9 +9,11 @@ from ..env import L
 from ..lib import F, Q, ahash
 
 U_ = ref.U
-C_ORTH = 200.0
+C_ORTH = 1000.0
 C_REC = 200.0
 C_TRI = 200.0
+ILL_COND = 50.0    # leading block with cond >= 100: contracted Q loses orthonormality like u*cond (same root cause as the
+                   # rank-deficient case, gradual); the class is part of the known finding
 
 
 @st.composite
@@ -67,28 +69,34 @@ def qr_cases(draw, tier):
 
 
 def leading_rank(A):
+    """(numerical rank, condition number) of the leading min(m,n) columns."""
     m, n, _ = A.shape
     k = min(m, n)
     s = ref.svals(A[:, :k])
     if len(s) == 0 or s[0] == 0:
-        return 0
-    return int(np.sum(s > 1e-10 * s[0]))
+        return 0, np.inf
+    r = int(np.sum(s > 1e-10 * s[0]))
+    return r, (float(s[0] / s[-1]) if r == k else np.inf)
 
 
 def check_qr(case):
     A = case["A"]
     m, n, _ = A.shape
     k = min(m, n)
-    lr = leading_rank(A)
+    lr, lcond = leading_rank(A)
     tags = []
     if lr < k:
         tags.append("leading_rank_deficient")
+    elif lcond >= ILL_COND:
+        tags.append("leading_ill_conditioned")
     if m < n:
         tags.append("wide")
     out = Out(tags=tuple(tags))
     out.label(case["kind"], "wide" if m < n else ("tall" if m > n else "square"))
     if lr < k:
         out.label("leading_rank_deficient")
+    elif lcond >= ILL_COND:
+        out.label("leading_ill_conditioned")
     if m == 1:
         out.label("row")
     Aq = Q(A)
